@@ -72,4 +72,10 @@ CHECKS = {
         "text": "Library constants and make_constant of generated units are paired with target units whose ratio to the constant is known exactly (type-limit-straddling integers, rationals, huge primes, irrational, float-limit powers of ten); for all 11 types can_store_value_in and the three conversion spellings are compared with the exact ratio; each not-representable case is compiled as a reject probe for as<T>, in<T> and implicit conversion; products/quotients with numbers, quantities, makers, magnitudes and other constants must keep the stored number and yield the model unit.",
         "note": "Trusted: vf/model.py, decimal/Fraction oracle with the C11 tolerances; constants' own units are read from the library (no claim is made about their numeric definitions).",
     },
+    "C07": {
+        "module": ("vf.props.c07", "C07"), "engine": "planeB",
+        "technique": "runtime trace monitoring: CommonUnitT of every permutation reified (type id, magnitude, input/common ratios) and judged by an exact base-wise GCD model",
+        "text": "Generated lists of 2-4 same-dimension units (library, anonymous and named scaled units, rational scales up to 2^40, pi on both sides, plus irrational-ratio lists) are reified under every permutation and a repetition variant; the model checks that each input/common ratio is a positive integer, that the ratios are jointly coprime (equals the exact GCD magnitude), that an input equal to the GCD unit is the result type, that the type is permutation-invariant, that nesting is quantity-equivalent and that std::common_type is symmetric; a slice is compared across compilers.",
+        "note": "Trusted: vf/model.py exponent arithmetic; leaf magnitudes are read from the library.",
+    },
 }
